@@ -529,6 +529,7 @@ func (e *Engine) callByContract(st *State, fn *ssa.Function, ct *Contract, args 
 			default:
 				ret = VTuple{acc}
 			}
+			st.addTrace(TraceEv{Kind: "ret:" + ct.Short, Pos: pos, Args: acc})
 			env := &rEnv{e: e, pre: pre, post: st, vars: copyVars(vars), typs: typs, specs: e.contracts.specs, pol: -1, assuming: true}
 			e.bindResults(env, fn, ret)
 			for _, l := range ct.Lets {
@@ -554,6 +555,12 @@ func (e *Engine) callByContract(st *State, fn *ssa.Function, ct *Contract, args 
 			finish(s2, i+1, append(append([]Value{}, acc...), e.sentinelErr(s2, "opaque error from "+ct.Short)))
 			finish(st, i+1, append(append([]Value{}, acc...), VNil{}))
 			return
+		}
+		if _, isPtr := rt.Underlying().(*types.Pointer); isPtr {
+			if _, isAbs := e.abstractHandleProbe(rt); !isAbs {
+				s2 := st.clone()
+				finish(s2, i+1, append(append([]Value{}, acc...), VNil{}))
+			}
 		}
 		finish(st, i+1, append(append([]Value{}, acc...), e.havoc(st, rt, "res."+ct.Short)))
 	}
@@ -817,7 +824,7 @@ func usesTrace(n *rNode, ct *Contract) bool {
 		switch n.Text {
 		case "count", "iter", "callarg", "callpos", "pushpos", "pushes", "lastpushed", "delivered", "nolocks", "held",
 			"sqlAllInTxn", "writesAllInTxn", "oneTxn", "casDrawnInTxn", "lockedThroughout", "postsAfterCommit", "stmtsScoped",
-			"tracepos", "cursorWhere", "cursorOrderBy", "cursorCount", "cursorRow", "cursorId", "lenlist", "intxn":
+			"tracepos", "scanned", "callret", "cursorWhere", "cursorOrderBy", "cursorCount", "cursorRow", "cursorId", "lenlist", "intxn":
 			return true
 		}
 	case "id":
